@@ -527,7 +527,7 @@ func perturbations(b Route) []pert {
 			return true
 		}})
 	}
-	for _, v := range []string{"POST", "DELETE", "PATCH", "HEAD", "OPTIONS", "FOO"} {
+	for _, v := range []string{"POST", "DELETE", "PATCH", "HEAD", "OPTIONS", "FOO", "get", "Options"} {
 		v := v
 		ps = append(ps, pert{"verb->" + v, func(r *Route) bool {
 			if r.Verb == v {
@@ -634,7 +634,9 @@ func buildCases(tier string) ([]scen.Case, map[string]caseInfo) {
 		withSib.Sibling = true
 		add(bi, withSib, []string{"conflicting-sibling"})
 		ps := perturbations(b)
-		for i, p := range ps {
+		// every single perturbation first: a pair that happens to yield the same route as a single one (verb->POST then
+		// verb->PATCH) must not take the single one's place in the enumeration
+		for _, p := range ps {
 			r1 := b.clone()
 			if !p.F(&r1) {
 				continue
@@ -643,6 +645,12 @@ func buildCases(tier string) ([]scen.Case, map[string]caseInfo) {
 			rs := r1.clone()
 			rs.Sibling = true
 			add(bi, rs, []string{p.Name, "conflicting-sibling"})
+		}
+		for i, p := range ps {
+			r1 := b.clone()
+			if !p.F(&r1) {
+				continue
+			}
 			for _, q := range ps[i+1:] {
 				// quick: only pairs of link-level perturbations (annotations and template names); thorough: every pair
 				if tier != "thorough" && !(linkLevel(p.Name) && linkLevel(q.Name)) {
@@ -657,6 +665,49 @@ func buildCases(tier string) ([]scen.Case, map[string]caseInfo) {
 		}
 	}
 	return cases, info
+}
+
+// errorTypeTwins: two routes of one project whose error return types have the same type name and live in packages with
+// the same short name (v1/apierr.ApiErr embeds error, v2/apierr.ApiErr does not), in both declaration orders. The route
+// returning the embedding type is well-linked, the other one is not, whatever was validated first.
+func errorTypeTwins(run *core.Run, scratch string) {
+	var cases []scen.Case
+	for n, goodFirst := range []bool{true, false} {
+		id := fmt.Sprintf("e%04d", n)
+		good := scen.Method{Name: "Good" + id, Verb: "GET", Route: scen.S("/good"), Ret: "string", Err: "v1err.ApiErr", Body: "\tpanic(\"never called\")\n"}
+		bad := scen.Method{Name: "Bad" + id, Verb: "GET", Route: scen.S("/bad"), Ret: "string", Err: "v2err.ApiErr", Body: "\tpanic(\"never called\")\n"}
+		ms := []scen.Method{good, bad}
+		if !goodFirst {
+			ms = []scen.Method{bad, good}
+		}
+		ctl := scen.Controller{Name: "C" + id, Pkg: id, Prefix: scen.S("/" + id), Tag: scen.S("T" + id), Methods: ms}
+		u := scen.Unit{Controllers: []scen.Controller{ctl}, Decls: map[string]string{
+			id + "/v1/apierr": "type ApiErr struct {\n\terror\n\tCode int `json:\"code\"`\n}\n",
+			id + "/v2/apierr": "type ApiErr struct {\n\tCode int `json:\"code\"`\n}\n"},
+			Imports: map[string][]string{id: {"v1err " + scen.ModulePath + "/" + id + "/v1/apierr", "v2err " + scen.ModulePath + "/" + id + "/v2/apierr"}}}
+		cases = append(cases, scen.Case{ID: id, Unit: u, Features: map[string]string{"family": "error-type-twins", "well-linked-route-first": fmt.Sprint(goodFirst)}, Desc: map[string]any{"controller": ctl, "decls": u.Decls}})
+	}
+	f := fam.Family{Name: "error-type-twins", Cases: cases, BaseCfg: fam.DefaultCfg, PackSize: 1}
+	fam.RunOpt(f, scratch, nil, nil, cases, true, func(v fam.View) {
+		run.AddValidated(1)
+		if v.Hard != "" {
+			run.Report(core.Violation{Oracle: "well-linked-route-must-be-accepted", Features: v.Feat("real", "hard error"), What: "a project with one well-linked and one ill-linked route ended in a hard error instead of a diagnostic for the ill-linked route: " + v.Hard, Case: v.Case})
+			return
+		}
+		flagged := map[string]bool{}
+		for _, d := range v.Diags {
+			if d.Severity == 1 {
+				flagged[d.Entity[strings.LastIndex(d.Entity, "Receiver ")+len("Receiver "):]] = true
+			}
+		}
+		if !flagged["Bad"+v.Case.ID] {
+			run.Report(core.Violation{Oracle: "ill-linked-route-must-be-rejected", Features: v.Feat("rule", "R5:last-return-type-is-not-an-error"), What: "the route returning v2/apierr.ApiErr (no embedded error) got no error diagnostic; flagged: " + fmt.Sprint(flagged), Case: v.Case})
+		}
+		if flagged["Good"+v.Case.ID] {
+			run.Report(core.Violation{Oracle: "well-linked-route-must-be-accepted", Features: v.Feat("real", "diagnostic"), What: "the route returning v1/apierr.ApiErr (embeds error) was flagged with an error", Case: v.Case})
+		}
+		run.Outcome("error-type-twins: judged", 1)
+	})
 }
 
 // linkLevel: perturbations of annotations and template names other than re-kinding / re-targeting (those are
@@ -733,6 +784,9 @@ func Main(tier, replay string) {
 		}
 	}
 	rn := fam.RunOpt(f, scratch, nil, packed, singles, true, check)
+	if replay == "" {
+		errorTypeTwins(run, scratch)
+	}
 	run.AddStates(int64(len(cases)))
 	run.AddTransitions(rn.Projects.Load())
 	// CLI half: any error anywhere => exit != 0 and neither output file created or modified
